@@ -1,10 +1,164 @@
-import JP.Driver
-import JP.Impl.Den
+import JP.Lemmas.CopyTotal
 
-/-! # Property C12 — theorems (see DESIGN.md §6) -/
+/-!
+# C12: the accumulated copy-size limit
 
-namespace JP
-namespace C12
+`copySizeOf o r op` (`JP/Check.lean`) is the size `deepCopy` reports for the copy `op` in
+state `r`; `copySizes` lists these sizes along a run of a whole patch.
+`Impl.CopyResolves o r op` (`JP/Lemmas/CopySize.lean`) says that source and destination of
+the copy resolve: the two walks of `opCopy` (`copySource` for `from`, then the walk to the
+destination's container) end in `done`/`doneSelf`, and the source can be read again.
+-/
 
-end C12
-end JP
+namespace JP.C12
+open JP.Impl
+
+/-- a limit of 0 (or negative) disables the check -/
+theorem zero_disables (o : Impl.Opts) (h : o.limit ≤ 0) (r : Impl.Root) (acc : Int)
+    (ops : List Impl.Op) : Impl.applyOps o r acc ops ≠ .err .copySize := by
+  intro he
+  obtain ⟨_, _, _, _, _, _, _, hb⟩ := (applyOps_copySize_iff o ops r acc).1 he
+  have := (applyOp_copySize hb).2
+  omega
+
+/-- other operations never count towards the total -/
+theorem others_dont_count (o : Impl.Opts) (r : Impl.Root) (acc : Int) (op : Impl.Op)
+    (r' : Impl.Root) (acc' : Int) :
+    op.kind ≠ ascii "copy" → Impl.applyOp o r acc op = .ok (r', acc') → acc' = acc :=
+  fun hk h => applyOp_not_copy_acc hk h
+
+/-- a copy that succeeds adds exactly the size of the duplicated value as the library spells it -/
+theorem copy_adds_size (o : Impl.Opts) (r : Impl.Root) (acc : Int) (op : Impl.Op)
+    (r' : Impl.Root) (acc' : Int) :
+    op.kind = ascii "copy" → Impl.applyOp o r acc op = .ok (r', acc') →
+      acc' = acc + copySizeOf o r op := by
+  intro hk h
+  rw [applyOp_copy hk] at h
+  exact opCopy_ok_acc h
+
+/-- exactness: a copy fails with the copy-size error exactly when the limit is positive,
+its source and destination resolve, and the running total with this copy's size exceeds
+the limit -/
+theorem copy_limit_exact (o : Impl.Opts) (r : Impl.Root) (acc : Int) (op : Impl.Op) :
+    op.kind = ascii "copy" →
+      (Impl.applyOp o r acc op = .err .copySize ↔
+        (o.limit > 0 ∧ Impl.CopyResolves o r op ∧ acc + copySizeOf o r op > o.limit)) := by
+  intro hk
+  rw [applyOp_copy hk]
+  exact opCopy_copySize_iff o r acc op
+
+/-- never while within the limit: a copy whose total stays within the limit does not fail
+with the copy-size error -/
+theorem copy_within_limit (o : Impl.Opts) (r : Impl.Root) (acc : Int) (op : Impl.Op)
+    (h : acc + copySizeOf o r op ≤ o.limit) : Impl.applyOp o r acc op ≠ .err .copySize := by
+  intro he
+  have hk := (applyOp_copySize he).1
+  have := ((copy_limit_exact o r acc op hk).1 he).2.2
+  omega
+
+/-- a copy that succeeds resolves its source and destination, and (limit positive) leaves
+the running total within the limit -/
+theorem copy_ok_within (o : Impl.Opts) (r : Impl.Root) (acc : Int) (op : Impl.Op)
+    (r' : Impl.Root) (acc' : Int) (hk : op.kind = ascii "copy")
+    (h : Impl.applyOp o r acc op = .ok (r', acc')) :
+    Impl.CopyResolves o r op ∧ (o.limit > 0 → acc' ≤ o.limit) := by
+  rw [applyOp_copy hk] at h
+  exact ⟨opCopy_ok_resolves h, fun hl => opCopy_ok_within hl h⟩
+
+/-! ### the running total over a whole patch -/
+
+/-- after a prefix that succeeds the running total is the start value plus the sizes
+`copySizes` lists for the prefix (one per operation, 0 for operations other than copy) -/
+theorem running_total (o : Impl.Opts) (r : Impl.Root) (acc : Int) (ops : List Impl.Op)
+    (r' : Impl.Root) (acc' : Int) (h : Impl.applyOpsAcc o r acc ops = .ok (r', acc')) :
+    acc' = acc + sumSizes (copySizes o r acc ops) ∧ (copySizes o r acc ops).length = ops.length :=
+  applyOpsAcc_total o ops h
+
+/-- …and it never exceeds a positive limit while operations succeed -/
+theorem running_total_within (o : Impl.Opts) (hl : o.limit > 0) (r : Impl.Root) (acc : Int)
+    (ops : List Impl.Op) (r' : Impl.Root) (acc' : Int) (ha : acc ≤ o.limit)
+    (h : Impl.applyOpsAcc o r acc ops = .ok (r', acc')) :
+    acc + sumSizes (copySizes o r acc ops) ≤ o.limit := by
+  have := applyOpsAcc_ok_within hl ops ha h
+  rw [(applyOpsAcc_total o ops h).1] at this
+  exact this
+
+/-- exactness over a whole patch: the run ends with the copy-size error iff the patch
+splits as `ops₁ ++ op :: ops₂` where `ops₁` succeeds, `op` is a copy whose source and
+destination resolve in the state `ops₁` left, the limit is positive, and the sum of the
+sizes of the first `ops₁.length + 1` operations (on top of the start value) exceeds it.
+By `running_total_within` the total did not exceed the limit at any earlier operation. -/
+theorem patch_limit_exact (o : Impl.Opts) (r : Impl.Root) (acc : Int) (ops : List Impl.Op) :
+    Impl.applyOps o r acc ops = .err .copySize ↔
+      ∃ ops₁ op ops₂ r₁ acc₁, ops = ops₁ ++ op :: ops₂ ∧
+        Impl.applyOpsAcc o r acc ops₁ = .ok (r₁, acc₁) ∧
+        op.kind = ascii "copy" ∧ o.limit > 0 ∧ Impl.CopyResolves o r₁ op ∧
+        acc + sumSizes ((copySizes o r acc ops).take (ops₁.length + 1)) > o.limit := by
+  rw [applyOps_copySize_iff]
+  have key : ∀ ops₁ op ops₂ r₁ acc₁, ops = ops₁ ++ op :: ops₂ →
+      applyOpsAcc o r acc ops₁ = .ok (r₁, acc₁) → op.kind = ascii "copy" →
+      acc + sumSizes ((copySizes o r acc ops).take (ops₁.length + 1))
+        = acc₁ + (copySizeOf o r₁ op : Int) := by
+    intro ops₁ op ops₂ r₁ acc₁ he hp hk
+    obtain ⟨ht, hlen⟩ := applyOpsAcc_total o ops₁ hp
+    rw [he, copySizes_append o ops₁ (op :: ops₂) hp, copySizes_cons]
+    rw [List.take_append, hlen]
+    simp only [Nat.add_sub_cancel_left, List.take_succ_cons, List.take_zero]
+    rw [List.take_of_length_le (by omega), sumSizes_append, sumSizes_cons, sumSizes_nil, ht]
+    simp only [opSize, hk, if_true]
+    omega
+  constructor
+  · rintro ⟨ops₁, op, ops₂, r₁, acc₁, he, hp, hb⟩
+    have hk := (applyOp_copySize hb).1
+    obtain ⟨hl, hres, hgt⟩ := (copy_limit_exact o r₁ acc₁ op hk).1 hb
+    exact ⟨ops₁, op, ops₂, r₁, acc₁, he, hp, hk, hl, hres, by rw [key _ _ _ _ _ he hp hk]; exact hgt⟩
+  · rintro ⟨ops₁, op, ops₂, r₁, acc₁, he, hp, hk, hl, hres, hgt⟩
+    rw [key _ _ _ _ _ he hp hk] at hgt
+    exact ⟨ops₁, op, ops₂, r₁, acc₁, he, hp, (copy_limit_exact o r₁ acc₁ op hk).2 ⟨hl, hres, hgt⟩⟩
+
+/-! ### the hypotheses are satisfiable -/
+
+section Examples
+
+def exRoot : Root :=
+  { con := .doc [ascii "a"] [(ascii "a", .raw (.arr [.lit (ascii "1"), .lit (ascii "22")]))], self := .nil }
+def exCopy : Op := { kind := ascii "copy", path := ascii "/c", frm := some (ascii "/a") }
+def exCopy2 : Op := { kind := ascii "copy", path := ascii "/d", frm := some (ascii "/c") }
+def exAdd : Op := { kind := ascii "add", path := ascii "/b", value := some (.lit (ascii "2")) }
+
+/-- the value `[1,22]` has size 6 -/
+example : copySizeOf {} exRoot exCopy = 6 := rfl
+
+/-- `zero_disables`: with limit 0 the copies go through -/
+example : ∃ r', applyOps { limit := 0 } exRoot 0 [exCopy, exCopy2] = .ok r' := ⟨_, rfl⟩
+
+/-- `others_dont_count` -/
+example : ∃ r', applyOp { limit := 5 } exRoot 3 exAdd = .ok (r', 3) := ⟨_, rfl⟩
+
+/-- `copy_adds_size` -/
+example : ∃ r', applyOp { limit := 10 } exRoot 3 exCopy = .ok (r', 9) := ⟨_, rfl⟩
+
+/-- `copy_limit_exact`: 6 ≤ 6 passes, 1 + 6 > 6 fails -/
+example : ∃ r', applyOp { limit := 6 } exRoot 0 exCopy = .ok (r', 6) := ⟨_, rfl⟩
+example : applyOp { limit := 6 } exRoot 1 exCopy = .err .copySize := rfl
+example : CopyResolves { limit := 6 } exRoot exCopy :=
+  ⟨ascii "/a", exRoot, exRoot, .raw (.arr [.lit (ascii "1"), .lit (ascii "22")]), rfl, rfl, rfl, rfl,
+    by intro h; exact absurd h.1 (by decide)⟩
+
+/-- `patch_limit_exact`: the second copy takes the total from 6 to 12 > 10 -/
+example : applyOps { limit := 10 } exRoot 0 [exCopy, exAdd, exCopy2] = .err .copySize := rfl
+example : copySizes { limit := 10 } exRoot 0 [exCopy, exAdd, exCopy2] = [6, 0, 6] := rfl
+
+end Examples
+
+end JP.C12
+
+-- #print axioms JP.C12.zero_disables
+-- #print axioms JP.C12.others_dont_count
+-- #print axioms JP.C12.copy_adds_size
+-- #print axioms JP.C12.copy_limit_exact
+-- #print axioms JP.C12.copy_within_limit
+-- #print axioms JP.C12.copy_ok_within
+-- #print axioms JP.C12.running_total
+-- #print axioms JP.C12.running_total_within
+-- #print axioms JP.C12.patch_limit_exact
